@@ -40,12 +40,13 @@ def write_evidence(prop, ev):
         json.dump(ev, f, indent=1, sort_keys=True)
 
 
-def run_bounded(prop):
+def run_bounded(prop, tier='quick'):
     """Bounded stand-in: executable form of the contracts run on the REAL compiled code (rx/src/bounded.rs) over a fixed finite family.
     Labelled bounded everywhere; never counted as proof."""
     import subprocess
     cmd = [os.path.join(VERIF, 'bin', 'rx'), 'bounded', prop]
     env = dict(os.environ, VERIF_REPO=core.REPO)
+    env.setdefault('RX_BUDGET', '5000' if tier == 'thorough' else '200')
     t = time.time()
     try:
         p = subprocess.run(cmd, capture_output=True, text=True, env=env, timeout=1800)
@@ -69,7 +70,7 @@ def run_bounded(prop):
     return r
 
 
-BOUNDED_RULE = ('deterministic finite family of inputs in rx/src/bounded.rs (small dyadic coefficients/values so every expected number is exact in f64; '
+BOUNDED_RULE = ('part A: deterministic hand-built family of inputs in rx/src/bounded*.rs; part B: RX_BUDGET (quick 200 / thorough 5000) structured inputs from a PRNG seeded by VERIF_SEED (small dyadic coefficients/values so every expected number is exact in f64; '
                 'every representation shape named by the property); each case runs the REAL compiled ommx code and compares with an independent '
                 'executable form of the contract; distinct = distinct (input) tuples')
 
@@ -118,7 +119,7 @@ def main():
         if reason.split(':')[0] in ('lost-anchor', 'tool-limit', 'rlimit', 'tool-failure') and not os.environ.get('VERIF_NO_BOUNDED'):
             # the code left the verifier's dialect (or budget): the deductive route gives no verdict on this tree.
             # Fall back to the bounded stand-in on the real compiled code - labelled bounded, never counted as proved.
-            b = run_bounded(prop)
+            b = run_bounded(prop, tier)
             if b['status'] in ('pass', 'fail'):
                 ev['level'] = 'exploration'
                 ev['coverage'] = dict(evaluations=b['cases'], distinct_nontrivial=b['distinct'], rule=BOUNDED_RULE, samples=b['samples'] or ['(none recorded)'],
@@ -351,7 +352,7 @@ def main():
     # bounded stand-in on the real compiled code: covers callees whose contracts are only assumed, and supplies a witness for a failed obligation
     bounded = None
     if not os.environ.get('VERIF_NO_BOUNDED'):
-        bounded = run_bounded(prop)
+        bounded = run_bounded(prop, tier)
         if bounded['status'] == 'error' and not new_viol:
             return undecided('broken-check:bounded-stand-in-error', bounded.get('detail', ''))
         if bounded['status'] in ('pass', 'fail'):
